@@ -21,6 +21,8 @@ import (
 const hookSrc = `// Package verifhook exists only in the verification build overlay.
 package verifhook
 
+import "sync"
+
 // Yield is called immediately before every Lock/RLock in util/resolve.
 var Yield func(point string)
 
@@ -68,6 +70,32 @@ func U() {
 	}
 }
 
+// Reach probes (generator audit only, tools/coverage.sh): C counts how often
+// a block of the code under test was entered. Never called in a check build.
+var (
+	cmu    sync.Mutex
+	counts map[string]int
+)
+
+func C(point string) {
+	cmu.Lock()
+	if counts == nil {
+		counts = map[string]int{}
+	}
+	counts[point]++
+	cmu.Unlock()
+}
+
+func Counts() map[string]int {
+	cmu.Lock()
+	defer cmu.Unlock()
+	out := map[string]int{}
+	for k, v := range counts {
+		out[k] = v
+	}
+	return out
+}
+
 func Size(n int) int {
 	if LRUSize != nil {
 		return LRUSize(n)
@@ -76,12 +104,35 @@ func Size(n int) int {
 }
 `
 
+// bridgeSrc is a second overlay-only package, inside the resolve module, that
+// re-exports the repository's internal text helpers for attribute sets (the
+// writer/parser pair named by C19) so that the simulator can call them.
+const bridgeSrc = `// Package verifbridge exists only in the verification build overlay.
+package verifbridge
+
+import (
+	"deps.dev/util/resolve/dep"
+	"deps.dev/util/resolve/internal/deptest"
+	"deps.dev/util/resolve/internal/versiontest"
+	"deps.dev/util/resolve/version"
+)
+
+func VersionAttrString(a version.AttrSet) string { return versiontest.String(a) }
+
+func VersionAttrParse(s string) (version.AttrSet, error) { return versiontest.ParseString(s) }
+
+func VersionAttrParseSingle(s string) (version.AttrSet, error) { return versiontest.ParseSingle(s) }
+
+func DepTypeParse(s string) (dep.Type, error) { return deptest.ParseString(s) }
+`
+
 // Report says what was instrumented.
 type Report struct {
 	LockSites  []string `json:"lock_sites"`
 	SyncSites  []string `json:"sync_sites"`
 	BlockSites []string `json:"block_sites"`
 	SizeSites  []string `json:"lru_size_sites"`
+	ProbeSites []string `json:"probe_sites,omitempty"`
 	Files      int      `json:"files_rewritten"`
 }
 
@@ -101,6 +152,11 @@ func Generate(repo, dir string) (string, *Report, error) {
 		return "", nil, err
 	}
 	replace[filepath.Join(root, "semver", "verifhook", "hook.go")] = hook
+	bridge := filepath.Join(dir, "verifbridge.go.txt")
+	if err := os.WriteFile(bridge, []byte(bridgeSrc), 0o644); err != nil {
+		return "", nil, err
+	}
+	replace[filepath.Join(root, "resolve", "verifbridge", "bridge.go")] = bridge
 
 	var files []string
 	err := filepath.Walk(root, func(p string, info os.FileInfo, err error) error {
@@ -108,7 +164,7 @@ func Generate(repo, dir string) (string, *Report, error) {
 			return err
 		}
 		if info.IsDir() {
-			if info.Name() == "testdata" || info.Name() == "verifhook" {
+			if info.Name() == "testdata" || info.Name() == "verifhook" || info.Name() == "verifbridge" {
 				return filepath.SkipDir
 			}
 			return nil
@@ -257,14 +313,38 @@ func Generate(repo, dir string) (string, *Report, error) {
 				}
 			}
 		}
+		probes := os.Getenv("VERIF_PROBES") != ""
+		clauseBlocks := map[*ast.BlockStmt]bool{}
+		probe := func(off int, line int) {
+			point := fmt.Sprintf("%s:%d", rel, line)
+			edits = append(edits, edit{off, fmt.Sprintf(" verifhook.C(%q);", point)})
+			rep.ProbeSites = append(rep.ProbeSites, point)
+		}
 		ast.Inspect(af, func(n ast.Node) bool {
+			switch x := n.(type) {
+			case *ast.SwitchStmt:
+				clauseBlocks[x.Body] = true
+			case *ast.TypeSwitchStmt:
+				clauseBlocks[x.Body] = true
+			case *ast.SelectStmt:
+				clauseBlocks[x.Body] = true
+			}
 			switch x := n.(type) {
 			case *ast.BlockStmt:
 				visitStmts(x.List)
+				if probes && !clauseBlocks[x] && x.Lbrace.IsValid() {
+					probe(fset.Position(x.Lbrace).Offset+1, fset.Position(x.Lbrace).Line)
+				}
 			case *ast.CaseClause:
 				visitStmts(x.Body)
+				if probes {
+					probe(fset.Position(x.Colon).Offset+1, fset.Position(x.Colon).Line)
+				}
 			case *ast.CommClause:
 				visitStmts(x.Body)
+				if probes {
+					probe(fset.Position(x.Colon).Offset+1, fset.Position(x.Colon).Line)
+				}
 			case *ast.CallExpr:
 				if !isPypi || len(x.Args) != 1 {
 					return true
